@@ -98,11 +98,12 @@ SITES = [
 ]
 # option variants of an input: (member order, SOURCE_DATE_EPOCH, enumerated for inputs with at most `upto` roots)
 EPOCH = 1000000000
-# (member order, SOURCE_DATE_EPOCH, upto, pages all|summary, --sidebar-expand-depth=2, explore listing permutations)
-DEFAULT_VARIANT = ("alphabetical", EPOCH, 9, "all", False, True)
-VARIANTS = {"quick": [DEFAULT_VARIANT, ("source", 0, 1, "all", True, True), ("alphabetical", EPOCH, 1, "summary", False, False)],
-            "thorough": [DEFAULT_VARIANT, ("source", 0, 1, "all", True, True), ("source", EPOCH, 1, "all", False, True),
-                         ("alphabetical", 0, 1, "all", True, True), ("alphabetical", EPOCH, 2, "summary", False, False)]}
+# (member order, SOURCE_DATE_EPOCH, upto, pages all|summary, --sidebar-expand-depth=2, explore listing permutations,
+#  --template-dir with footer.html and FOOTER.html)
+DEFAULT_VARIANT = ("alphabetical", EPOCH, 9, "all", False, True, False)
+VARIANTS = {"quick": [DEFAULT_VARIANT, ("source", 0, 1, "all", True, True, True), ("alphabetical", EPOCH, 1, "summary", False, False, False)],
+            "thorough": [DEFAULT_VARIANT, ("source", 0, 1, "all", True, True, True), ("source", EPOCH, 1, "all", False, True, False),
+                         ("alphabetical", 0, 1, "all", True, True, False), ("alphabetical", EPOCH, 2, "summary", False, False, True)]}
 FIXED_PAGES = {"index.html": [0, 0], "moduleIndex.html": [0, 1], "classIndex.html": [0, 2], "nameIndex.html": [0, 3],
                "undoccedSummary.html": [0, 4], "all-documents.html": [0, 5]}
 
@@ -166,8 +167,8 @@ class Tree:
             out.append({"name": name, "mod": list(self.path_of_name[mod]), "how": how,
                         "elems": [{"m": list(self.path_of_name[m]), "r": rank[e]} for m, e in present]})
         return {"roots": self.roots, "dirs": self.dirs, "sites": out,
-                "variants": [{"order": o, "epochset": True, "epoch": e, "upto": u, "pages": pg, "expand": ex, "permute": pm}
-                             for o, e, u, pg, ex, pm in variants]}
+                "variants": [{"order": o, "epochset": True, "epoch": e, "upto": u, "pages": pg, "expand": ex, "permute": pm, "tpl": tp}
+                             for o, e, u, pg, ex, pm, tp in variants]}
 
     def site_element(self, site: str, rank: int) -> str:
         elems = next(el for name, _, _, el in SITES if name == site)
@@ -334,20 +335,6 @@ SAMEPROC = ("import sys\nfrom pydoctor.driver import main\nwarm, args = sys.argv
             "first = list(args)\nfirst[first.index('--html-output') + 1] = warm\nmain(first)\nsys.exit(main(args))\n")
 _TABLE_ID = re.compile(rb"\bid\d+\b")
 _SIDEBAR_ID = re.compile(rb"expandableItemId\d+")
-KF_SIDEBAR_IDS = "sidebar-item-ids-count-on-across-runs-of-a-process"
-
-
-def kf_sidebar_ids(w: Dict[str, Any]) -> bool:
-    """Known finding: ExpandableItem.last_ExpandableItem_id (pages/sidebar.py:398) is a class attribute, never reset: with
-    --sidebar-expand-depth > 1 the ids of the expandable sidebar items of a run continue where the previous pydoctor run
-    of the same process stopped.  Matches ONLY a run that was the second of its process compared with a first run, with
-    --sidebar-expand-depth=2, the same file set, whose every difference disappears when the numbers of these ids are masked."""
-    return (w.get("invariant") == "OutputIndependentOfEnvironment" and w.get("env", {}).get("outdir") == "sameproc"
-            and w.get("ref_env", {}).get("outdir") == "fresh" and w.get("project", {}).get("sidebar_expand") is True
-            and w.get("same_file_set") is True and w.get("n_differing", 0) > 0
-            and w.get("residual_after_sidebar_id_normalisation") == [])
-
-
 class Runner:
     """Runs the real pydoctor as a subprocess under a chosen environment."""
 
@@ -357,6 +344,14 @@ class Runner:
         self.site.mkdir(exist_ok=True)
         (self.site / "sitecustomize.py").write_text(SITECUSTOMIZE)
         self.n = 0
+        # a custom template directory with two footer templates whose names differ only by case (outside the source tree:
+        # the sitecustomize lists it in an order salted per run)
+        import pydoctor
+        base = (Path(pydoctor.__file__).parent / "themes" / "base" / "footer.html").read_text()
+        self.tpl = scratch / "tpl"
+        self.tpl.mkdir(exist_ok=True)
+        (self.tpl / "footer.html").write_text(base.replace("<footer ", '<footer data-tpl="lower" ', 1))
+        (self.tpl / "FOOTER.html").write_text(base.replace("<footer ", '<footer data-tpl="upper" ', 1))
 
     def run(self, src: Path, root_args: List[str], named: bool, seed: int, orders: Dict[str, List[str]], salt: int,
             out: Path, extra_args: Sequence[str] = (), var: Optional[Dict[str, Any]] = None,
@@ -372,6 +367,8 @@ class Runner:
             extra_args = list(extra_args) + ["--html-summary-pages"]
         if var.get("expand"):
             extra_args = list(extra_args) + ["--sidebar-expand-depth=2"]
+        if var.get("tpl"):
+            extra_args = list(extra_args) + ["--template-dir", str(self.tpl)]
         env.pop("SOURCE_DATE_EPOCH", None)
         if var["epochset"]:
             env["SOURCE_DATE_EPOCH"] = str(var["epoch"])
@@ -446,6 +443,9 @@ def observed_sites(out: Path) -> Dict[str, Any]:
             if m:
                 import calendar, time as _time
                 obs["buildtime"] = [0, calendar.timegm(_time.strptime(m.group(1), "%Y-%m-%d %H:%M:%S"))]
+        m = re.search(r'data-tpl="(\w+)"', t)
+        # footer.html sorts after FOOTER.html: it is added last and wins (TemplateLookup is case-insensitive)
+        obs["footer"] = "default" if not m else ("sorted-last" if m.group(1) == "lower" else "the other one: " + m.group(1))
         m = re.search(r"No package docstring; ([^<]*) documented", t)
         if m:
             obs["undocumented-kinds:beta"] = re.findall(r"\d+/\d+ ([a-z]+)", m.group(1))
@@ -486,7 +486,6 @@ CONSTANTS MaxRoots = {maxroots}
           PermuteUpTo = {permute}
           EpochRule = "{epochrule}"
           SameProcUpTo = {sameproc}
-          SidebarIds = "{sidebarids}"
           Listing = "{listing}"
 CONSTRAINT Collect
 CONSTRAINT Emit
@@ -496,7 +495,7 @@ POSTCONDITION Post
 
 def tlc_enum(ctx: Ctx, tree: Tree, maxroots: int, listing: str = "sorted", count: bool = True, coverage: bool = False,
              reuse: int = 9, sites_as_set: bool = False, variants: Sequence[Tuple[Any, ...]] = (DEFAULT_VARIANT,),
-             epochrule: str = "is_set", permute: int = 9, sameproc: int = 0, sidebarids: str = "process_counter"):
+             epochrule: str = "is_set", permute: int = 9, sameproc: int = 0):
     f = ctx.scratch / f"universe_{tree.src.name}.json"
     uni = tree.universe(variants=variants)
     if sites_as_set:
@@ -504,7 +503,7 @@ def tlc_enum(ctx: Ctx, tree: Tree, maxroots: int, listing: str = "sorted", count
             st["how"] = BOTH("set")
     f.write_text(json.dumps(uni))
     r = ctx.tlc("Determinism", CFG.format(maxroots=maxroots, source="enum", listing=listing, reuse=reuse, epochrule=epochrule, permute=permute,
-                                            sameproc=sameproc, sidebarids=sidebarids), workers=1,
+                                            sameproc=sameproc), workers=1,
                 env={"C18_UNIVERSE": str(f)}, check=True, timeout=1500, count=count, coverage=coverage)
     post = [x for x in r.printed if "dependent" in x]
     recs = [x for x in r.printed if "pid" in x]
@@ -605,6 +604,8 @@ def realise_enumeration(ctx: Ctx, runner: Runner, tree: Tree, uname: str, recs: 
         if obs.get("sidebarbase") is not None and obs["sidebarbase"] != rec["sidebarbase"]:
             bad["sidebar_ids"] = {"model": "start at 1" if rec["sidebarbase"] == 0 else "continue after the previous run of the process",
                                   "real_first_id": obs.get("first_sidebar_id")}
+        if obs.get("footer") != rec["footer"]:
+            bad["footer_template"] = {"model": rec["footer"], "real": obs.get("footer")}
         if obs.get("buildtime") != rec["buildtime"]:
             bad["buildtime"] = {"model": rec["buildtime"], "real": obs.get("buildtime")}
         kinds = "/".join({1: "modules", 2: "packages"}[k] for k in rec.get("rootkinds", []))
@@ -665,7 +666,7 @@ def judge_enumeration(ctx: Ctx, tree: Tree, uname: str, res: Dict[str, Any], dep
         ref = res["refs"][rec["pid"]]
         project = {"roots": [tree.root_name[x] for x in rec["roots"]], "named": rec["named"], "universe": uname,
                    "member_order": rec["var"]["order"], "source_date_epoch": rec["var"]["epoch"],
-                   "pages": rec["var"]["pages"], "sidebar_expand": rec["var"]["expand"]}
+                   "pages": rec["var"]["pages"], "sidebar_expand": rec["var"]["expand"], "template_dir": rec["var"]["tpl"]}
         if r["diff"] is not None:
             dependent_real.add(rec["pid"])
             w = {"invariant": "OutputIndependentOfEnvironment", "origin": "enum", "project": project,
@@ -745,8 +746,6 @@ def observed_runs(ctx: Ctx, runner: Runner, pool: ThreadPoolExecutor, rng: rando
 def run(ctx: Ctx) -> int:
     rng = random.Random(ctx.seed)
     runner = Runner(ctx.scratch)
-    ctx.register_matcher(KF_SIDEBAR_IDS, kf_sidebar_ids)
-    sidebar_variant = None
     pool = ThreadPoolExecutor(max_workers=max(2, min(NCPU - 2, 14)))
     plans = [("small", 2, 1)] if ctx.quick else [("small", 3, 9), ("large", 1, 9)]
     nseeds = 64 if ctx.quick else 128
@@ -774,17 +773,6 @@ def run(ctx: Ctx) -> int:
                 real = x["guess"] if x["guess"] is not None else PROJECT_NAME
                 if model != real or (m["named"] and x["guess"] is not None):
                     x["drift"] = {**(x["drift"] or {}), "projname": {"model": model, "real": x["guess"]}}
-            # which transcription of the sidebar item counter does the code follow (process-wide as it is, or per run)?
-            sp = [x for x in res["runs"] if x["rec"]["outdir"] == "sameproc" and x["rec"]["var"]["expand"]]
-            if sp and all("sidebar_ids" in (x["drift"] or {}) for x in sp):
-                _, dep_model, _ = tlc_enum(ctx, tree, maxroots, reuse=reuse, variants=variants, permute=permute,
-                                           sameproc=sameproc, sidebarids="per_run", count=False)
-                for x in sp:
-                    del x["drift"]["sidebar_ids"]
-                    x["drift"] = x["drift"] or None
-                sidebar_variant = "per_run"
-            elif sp:
-                sidebar_variant = "process_counter"
             j = judge_enumeration(ctx, tree, uname, res, dep_model)
             j["terminal_states"] = len(recs)
             j["projects"] = len({x["pid"] for x in recs})
@@ -798,7 +786,6 @@ def run(ctx: Ctx) -> int:
                                  f"choice dependent {j['dependent_model']}")
         ctx.exhaustive = True
         ctx.extra["enumerations"] = summary
-        ctx.extra["sidebar_id_variant_followed_by_code"] = sidebar_variant
 
         # ---- model-level negative control: with the listing NOT sorted the register mechanism must report dependence
         src = ctx.scratch / "src_small"
@@ -806,7 +793,7 @@ def run(ctx: Ctx) -> int:
         _, dep_sorted, _ = tlc_enum(ctx, tree, 1, "sorted", count=False)
         _, dep_raw, _ = tlc_enum(ctx, tree, 1, "raw", count=False)
         _, dep_sets, _ = tlc_enum(ctx, tree, 1, "sorted", count=False, reuse=0, sites_as_set=True)
-        _, dep_epoch, _ = tlc_enum(ctx, tree, 1, "sorted", count=False, reuse=0, variants=[("alphabetical", 0, 1, "all", False, True)],
+        _, dep_epoch, _ = tlc_enum(ctx, tree, 1, "sorted", count=False, reuse=0, variants=[("alphabetical", 0, 1, "all", False, True, False)],
                                    epochrule="truthy")
         ctx.extra["negative_control_model"] = {"dependent_when_epoch_zero_counts_as_unset": sorted(dep_epoch),
                                                "dependent_with_sorted_listing": sorted(dep_sorted),
@@ -833,14 +820,14 @@ def run(ctx: Ctx) -> int:
                 listing.append([{"id": ids[n], "kind": d["ents"][ids[n]]["kind"]} for n in byd[dp] if n in ids])
             rid = {v: k for k, v in tree.root_name.items()}
             fruns.append({"reg": r["pi"] + 1, "u": tree.universe(sites=False), "roots": [rid[n] for n in r["pr"]["roots"]],
-                          "named": r["pr"]["named"], "var": {"order": "alphabetical", "epochset": True, "epoch": EPOCH, "upto": 9, "pages": "all", "expand": False, "permute": True},
+                          "named": r["pr"]["named"], "var": {"order": "alphabetical", "epochset": True, "epoch": EPOCH, "upto": 9, "pages": "all", "expand": False, "permute": True, "tpl": False},
                           "setOrder": [rid[n] for n in r["setorder"]],
                           "listing": listing, "outdir": r["outdir"]})
         f = ctx.scratch / "runs.json"
         f.write_text(json.dumps(fruns))
         file_drift = 0
         r2 = ctx.tlc("Determinism", CFG.format(maxroots=0, source="file", listing="sorted", reuse=9, epochrule="is_set", permute=9,
-                                            sameproc=0, sidebarids="process_counter"), workers=1,
+                                            sameproc=0), workers=1,
                      env={"C18_RUNS": str(f)}, check=True, timeout=1500)
         got = {x["pid"]: x for x in r2.printed if "pid" in x}
         if len(got) != len(fruns):
@@ -924,7 +911,7 @@ def replay(ctx: Ctx, path: str) -> int:
             o = runner.run(src, args, pr["named"], e["hash_seed"], orders, e.get("listing_salt", i), out,
                            var={"order": pr.get("member_order", "alphabetical"), "epochset": True,
                                 "epoch": pr.get("source_date_epoch", EPOCH), "pages": pr.get("pages", "all"),
-                                "expand": pr.get("sidebar_expand", False)}, sameproc=e.get("outdir") == "sameproc")
+                                "expand": pr.get("sidebar_expand", False), "tpl": pr.get("template_dir", False)}, sameproc=e.get("outdir") == "sameproc")
             outs.append((out, o))
         diff = compare_with_ref(outs[0][0], tree_digest(outs[0][0]), outs[1][0], outs[0][1]["guess"] or PROJECT_NAME,
                                 outs[1][1]["guess"] or PROJECT_NAME)
